@@ -18,9 +18,15 @@ fn decode_ops(h: &[u8]) -> Vec<WOp> {
         .map(|b| match b {
             0 => WOp::W(0),
             1 => WOp::W(1),
-            _ => WOp::F,
+            2 => WOp::F,
+            _ => WOp::R,
         })
         .collect()
+}
+
+/// the type a rejected write offers
+fn other_of(t: Ty) -> Ty {
+    ALL13[(ALL13.iter().position(|x| *x == t).unwrap() + 5) % 13]
 }
 
 #[derive(Clone, Debug)]
@@ -28,6 +34,8 @@ pub struct Case {
     pub ty: Ty,
     /// the destinations already hold longer stale content (a reused buffer)
     pub prefill: bool,
+    /// ... and are not positioned at their start when the writer gets them
+    pub offset: bool,
     pub with_shx: bool,
     pub ending: Ending,
     pub ops: Vec<WOp>,
@@ -37,19 +45,21 @@ impl Case {
     fn from_hist(h: &Hist) -> Case {
         Case {
             ty: ALL13[h[0] as usize],
-            prefill: h[1] == 2,
+            prefill: h[1] >= 2,
+            offset: h[1] == 3,
             with_shx: h[1] >= 1,
             ending: ENDINGS[h[2] as usize],
             ops: decode_ops(&h[CFG..]),
         }
     }
     pub fn to_json(&self) -> Value {
-        json!({"ty": self.ty.name(), "prefill": self.prefill, "with_shx": self.with_shx, "ending": self.ending.name(), "ops": ops_name(&self.ops)})
+        json!({"ty": self.ty.name(), "prefill": self.prefill, "offset": self.offset, "with_shx": self.with_shx, "ending": self.ending.name(), "ops": ops_name(&self.ops)})
     }
     pub fn from_json(v: &Value) -> Option<Case> {
         Some(Case {
             ty: Ty::from_name(v.get("ty")?.as_str()?)?,
             prefill: v.get("prefill").and_then(|x| x.as_bool()).unwrap_or(false),
+            offset: v.get("offset").and_then(|x| x.as_bool()).unwrap_or(false),
             with_shx: v.get("with_shx")?.as_bool()?,
             ending: Ending::from_name(v.get("ending")?.as_str()?)?,
             ops: ops_from_name(v.get("ops")?.as_str()?)?,
@@ -107,17 +117,23 @@ fn declared_view(prefill: bool, b: &[u8]) -> &[u8] {
     }
 }
 
-fn stale(env: &WEnv) {
+fn stale(env: &WEnv, offset: bool) {
     env.shp.0.borrow_mut().data = vec![0xEE; 3000];
+    if offset {
+        env.shp.0.borrow_mut().pos = 776;
+    }
     if let Some(x) = &env.shx {
         x.0.borrow_mut().data = vec![0xEE; 1500];
+        if offset {
+            x.0.borrow_mut().pos = 332;
+        }
     }
 }
 
 pub fn observe(pal: &Palette, case: &Case) -> Obs {
     let env = WEnv::new(case.with_shx);
     if case.prefill {
-        stale(&env);
+        stale(&env, case.offset);
     }
     let mut after_f = vec![];
     let mut so_far: Vec<u8> = vec![];
@@ -152,7 +168,7 @@ pub fn observe(pal: &Palette, case: &Case) -> Obs {
     // reference run on the same tree: the same shapes, then drop
     let renv = WEnv::new(case.with_shx);
     if case.prefill {
-        stale(&renv);
+        stale(&renv, case.offset);
     }
     let rops: Vec<WOp> = acc.iter().filter(|k| **k < 2).map(|k| WOp::W(*k)).collect();
     let nc = acc.iter().filter(|k| **k == 2).count();
@@ -188,6 +204,14 @@ pub fn judge(pal: &Palette, case: &Case, o: &Obs) -> Vec<(String, String)> {
     let mut out = vec![];
     let pat = case.pattern();
     for (i, r) in o.results.iter().enumerate() {
+        // a write of another type is refused (C10 says how); here it only has to leave the writer as it was
+        if case.ops.get(i) == Some(&WOp::R) {
+            if !matches!(r, CallRes::Err(_)) {
+                out.push((format!("rejected-write-not-refused[{}]", pat), format!("call {} (a shape of another type) returned {:?}", i, r)));
+                return out;
+            }
+            continue;
+        }
         if *r != CallRes::Ok {
             out.push((format!("call-failed[{}]", pat), format!("call {} returned {:?} on a healthy destination", i, r)));
             return out;
@@ -295,6 +319,7 @@ fn selftest(pals: &[Palette]) -> (u64, u64) {
     let case = Case {
         ty: Ty::PolylineM,
         prefill: false,
+        offset: false,
         with_shx: true,
         ending: Ending::FinalizeDrop,
         ops: vec![WOp::W(0), WOp::F, WOp::F, WOp::W(1)],
@@ -330,10 +355,10 @@ fn selftest(pals: &[Palette]) -> (u64, u64) {
 pub fn check(tier: Tier) -> i32 {
     let started = Instant::now();
     let depth = tier.pick(7, 10);
-    let pals: Arc<Vec<Palette>> = Arc::new(ALL13.iter().map(|t| Palette::new(*t, None)).collect());
+    let pals: Arc<Vec<Palette>> = Arc::new(ALL13.iter().map(|t| Palette::new(*t, Some(other_of(*t)))).collect());
     let mut inits = vec![];
     for t in 0..13u8 {
-        for x in 0..3u8 {
+        for x in 0..4u8 {
             for e in 0..ENDINGS.len() as u8 {
                 inits.push(vec![t, x, e]);
             }
@@ -344,7 +369,15 @@ pub fn check(tier: Tier) -> i32 {
         inits,
         CFG,
         depth,
-        Arc::new(|_h| vec![0, 1, 2]),
+        // a refused write (of another type) at most once, behind a write that gave the file its type
+        Arc::new(|h: &Hist| {
+            let ops = &h[CFG..];
+            if ops.iter().any(|b| *b < 2) && !ops.contains(&3) {
+                vec![0, 1, 2, 3]
+            } else {
+                vec![0, 1, 2]
+            }
+        }),
         Arc::new(move |h, ctx| run(&p2, h, ctx)),
     );
     // path-created writers over paths that already hold longer files: every history up to depth 3
@@ -424,8 +457,8 @@ pub fn check(tier: Tier) -> i32 {
             tier,
             level: "model_checking",
             engine: "E1 stateright BFS over operation histories (state = history, no merging), each state executed on the real ShapeWriter over instrumented devices",
-            rule: "every sequence over {write a, write b, finalize} up to the depth bound x 13 types x {without .shx, with .shx, with .shx into buffers that already hold longer stale content} x 6 endings {drop, finalize+drop, write_shapes(self,[c]*k) k=0,1,2, drop by stack unwinding}; plus every history up to depth 3 through ShapeWriter::from_path over paths that already hold longer files; distinct = the history; non-trivial = contains a finalize or a non-drop ending",
-            bounds: json!({"depth": depth, "alphabet": ["Wa", "Wb", "F"], "types": 13, "endings": 6, "index": [true, false]}),
+            rule: "every sequence over {write a, write b, finalize, and at most one refused write of another type behind a write} up to the depth bound x 13 types x {without .shx, with .shx, with .shx into buffers that already hold longer stale content, the same with both destinations not positioned at their start} x 6 endings {drop, finalize+drop, write_shapes(self,[c]*k) k=0,1,2, drop by stack unwinding}; plus every history up to depth 3 through ShapeWriter::from_path over paths that already hold longer files; distinct = the history; non-trivial = contains a finalize or a non-drop ending",
+            bounds: json!({"depth": depth, "alphabet": ["Wa", "Wb", "F", "R (<=1)"], "types": 13, "endings": 6, "index": [true, false]}),
             exhaustive: true,
             assumptions: vec![
                 "reference for 'same bytes as drop' is a run of the same tree (differential), itself validated by RefCodec".into(),
@@ -451,7 +484,7 @@ pub fn replay(v: &Value) -> Vec<(String, String)> {
         Some(c) => c,
         None => return vec![("bad-replay-file".into(), "cannot parse case".into())],
     };
-    let pal = Palette::new(case.ty, None);
+    let pal = Palette::new(case.ty, Some(other_of(case.ty)));
     match catch(|| observe(&pal, &case)) {
         Ok(o) => judge(&pal, &case, &o),
         Err(p) => vec![(format!("harness-or-drop-panic:{}", p.sig()), p.msg)],
